@@ -408,7 +408,7 @@ impl StoreEngine {
             ("C09", true) => 600_000,
             ("C10", false) => 12_000,
             ("C10", true) => 600_000,
-            (_, false) => 3_000,
+            (_, false) => 6_000,
             (_, true) => 150_000,
         }
     }
